@@ -149,3 +149,9 @@ Proof.
   rewrite forallb_forall in H. specialize (H s Hs). rewrite forallb_forall in H. specialize (H a Ha).
   rewrite forallb_forall in H. specialize (H (false, c) Hc). simpl in H. apply negb_true_iff in H. exact H.
 Qed.
+
+Theorem canonical_texts_b_sound S p : canonical_texts_b S p = true -> canonical_texts S p.
+Proof.
+  unfold canonical_texts_b, canonical_texts. intros H x y Hx Hy E. apply String.eqb_eq.
+  apply (imp_sound _ _ (all2_sound _ _ H x y Hx Hy)). rewrite E. apply prefix_eqb_refl.
+Qed.
